@@ -892,6 +892,110 @@ Proof.
   - vm_compute. repeat split; reflexivity.
 Qed.
 
+(* ================= del ir.modules[a:b:c]: deletion of an extended slice (Model/DelExt.v) ================= *)
+From V Require DelExtProofs.
+From V Require Import DelExt.
+
+(* del l[a:b:c], c <> 0: the list keeps exactly the elements whose position the range of slice(a,b,c).indices(len) does not
+   enumerate, in their order (what the built-in list does); the deleted modules lose their owner and nothing else changes;
+   the state afterwards (and, by the construction of ml_delext, every state in between) is a reachable one *)
+Theorem C16_modlist_delslice_extended : forall w known ir a b c s e st, reachable_k w known -> is_k w ir KIR = true ->
+  py_slice_indices a b c (length (kids w ir)) = Ok (s, e, st) ->
+  let ps := py_range_positions s e st (length (kids w ir)) in
+  let victims := gather (kids w ir) ps in
+  exists w', ml_delext w ir a b c = Ok w' /\
+    kids w' ir = drop_positions (kids w ir) ps 0 /\
+    (forall x, x <> ir -> kids w' x = kids w x) /\
+    (forall x, nodes w' x = if mem x victims then Some (with_par (getn w x) None) else nodes w x) /\
+    (forall x, In x victims -> par w' x = None) /\
+    reachable_k w' known.
+Proof. intros w known ir a b c s e st. exact (DelExtProofs.delext_effect w known ir a b c s e st). Qed.
+
+(* the same by membership: the members afterwards are the members of before that were not selected, none twice, and as
+   many fewer as positions were selected *)
+Theorem C16_modlist_delslice_extended_members : forall w known ir a b c s e st, reachable_k w known -> is_k w ir KIR = true ->
+  py_slice_indices a b c (length (kids w ir)) = Ok (s, e, st) ->
+  let ps := py_range_positions s e st (length (kids w ir)) in
+  let victims := gather (kids w ir) ps in
+  exists w', ml_delext w ir a b c = Ok w' /\
+    (forall x, In x (kids w' ir) <-> In x (kids w ir) /\ ~ In x victims) /\
+    NoDup (kids w' ir) /\
+    length (kids w' ir) = (length (kids w ir) - length ps)%nat.
+Proof. intros w known ir a b c s e st. exact (DelExtProofs.delext_effect_members w known ir a b c s e st). Qed.
+
+(* drop_positions is the built-in result: the elements at the positions not selected; and it is what deleting the
+   positions one at a time from the highest down leaves *)
+Theorem C16_modlist_delslice_extended_list : forall (l : list id) ps,
+  (forall x, In x (drop_positions l ps 0) <-> exists q, nth_error l q = Some x /\ ~ In q ps) /\
+  drop_positions l ps 0 = drop_positions l (rev ps) 0 /\
+  (StronglySorted gt ps -> Forall (fun p => (p < length l)%nat) ps ->
+   fold_left (fun acc p => remove_at p acc) ps l = drop_positions l ps 0).
+Proof.
+  intros l ps. split; [intro x; apply DelExtProofs.drop_positions_In0|]. split; [apply DelExtProofs.drop_positions_rev|].
+  intros S F. exact (DelExtProofs.remove_all_drop_positions l ps (conj S F)).
+Qed.
+
+(* step 0: ValueError (slice step cannot be zero), nothing touched *)
+Theorem C16_modlist_delslice_extended_step_zero : forall w ir a b, ml_delext w ir a b 0 = Err EValue.
+Proof. intros w ir a b. exact (DelExtProofs.delext_zero_step w ir a b). Qed.
+
+(* step 1: the plain slice, the statement of C16_modlist_delslice *)
+Theorem C16_modlist_delslice_extended_step_one : forall w known ir a b, reachable_k w known -> is_k w ir KIR = true ->
+  let l := kids w ir in
+  let lo := norm_bound a 0 (length l) in
+  let hi := Z.max lo (norm_bound b (Z.of_nat (length l)) (length l)) in
+  let victims := ModListProofs.slice_victims l lo hi in
+  exists w', ml_delext w ir a b 1 = Ok w' /\
+    kids w' ir = firstn (Z.to_nat lo) l ++ skipn (Z.to_nat hi) l /\
+    (forall x, x <> ir -> kids w' x = kids w x) /\
+    (forall x, nodes w' x = if mem x victims then Some (with_par (getn w x) None) else nodes w x) /\
+    (forall x, In x victims -> par w' x = None) /\
+    reachable_k w' known.
+Proof. intros w known ir a b. exact (DelExtProofs.delext_step_one w known ir a b). Qed.
+
+(* del l[::-1] empties the list *)
+Theorem C16_modlist_delslice_extended_reverse_all : forall w known ir, reachable_k w known -> is_k w ir KIR = true ->
+  exists w', ml_delext w ir None None (-1) = Ok w' /\
+    kids w' ir = [] /\
+    (forall x, x <> ir -> kids w' x = kids w x) /\
+    (forall x, nodes w' x = if mem x (kids w ir) then Some (with_par (getn w x) None) else nodes w x) /\
+    (forall x, In x (kids w ir) -> par w' x = None) /\
+    reachable_k w' known.
+Proof. intros w known ir. exact (DelExtProofs.delext_reverse_all w known ir). Qed.
+
+(* non-vacuity: IR 1 with ir.modules = [3; 4; 5; 6; 7].  del l[::-2] (positions 4, 2, 0) leaves [4; 6]; del l[3:0:-1]
+   (positions 3, 2, 1) leaves [3; 7]; del l[::2] (positions 0, 2, 4) leaves [4; 6]; the deleted modules have no owner, the
+   others keep theirs; del l[::-1] empties the list; del l[5:] and del l[1:1:-1] delete nothing; step 0 is a ValueError *)
+Example C16_modlist_delslice_extended_example :
+  let h := [ONew 1 KIR 101 None 0 0 0 PNone; ONew 3 KMod 103 None 0 0 0 PNone; ONew 4 KMod 104 None 0 0 0 PNone;
+            ONew 5 KMod 105 None 0 0 0 PNone; ONew 6 KMod 106 None 0 0 0 PNone; ONew 7 KMod 107 None 0 0 0 PNone;
+            OModExtend 1 [3; 4; 5; 6; 7]] in
+  let w := fst (run_guarded w0 [] h) in
+  let known := snd (run_guarded w0 [] h) in
+  let after a b c := match ml_delext w 1 a b c with
+                     | Ok w' => Some (kids w' 1, map (par w') [3; 4; 5; 6; 7])
+                     | Err _ => None
+                     end in
+  reachable_k w known /\ is_k w 1 KIR = true /\ kids w 1 = [3; 4; 5; 6; 7] /\
+  map (par w) [3; 4; 5; 6; 7] = [Some 1; Some 1; Some 1; Some 1; Some 1] /\
+  (py_slice_indices None None (-2) 5 = Ok (4, -1, -2) /\ py_range_positions 4 (-1) (-2) 5 = [4; 2; 0]%nat /\
+   py_slice_indices (Some 3) (Some 0) (-1) 5 = Ok (3, 0, -1) /\ py_range_positions 3 0 (-1) 5 = [3; 2; 1]%nat /\
+   py_slice_indices None None 2 5 = Ok (0, 5, 2) /\ py_range_positions 0 5 2 5 = [0; 2; 4]%nat) /\
+  after None None (-2) = Some ([4; 6], [None; Some 1; None; Some 1; None]) /\
+  after (Some 3) (Some 0) (-1) = Some ([3; 7], [Some 1; None; None; None; Some 1]) /\
+  after None None 2 = Some ([4; 6], [None; Some 1; None; Some 1; None]) /\
+  drop_positions [3; 4; 5; 6; 7] [0; 2; 4]%nat 0 = [4; 6] /\
+  after None None (-1) = Some ([], [None; None; None; None; None]) /\
+  after (Some 1) (Some (-1)) 1 = Some ([3; 7], [Some 1; None; None; None; Some 1]) /\
+  after (Some 5) None 1 = Some ([3; 4; 5; 6; 7], [Some 1; Some 1; Some 1; Some 1; Some 1]) /\
+  after (Some 1) (Some 1) (-1) = Some ([3; 4; 5; 6; 7], [Some 1; Some 1; Some 1; Some 1; Some 1]) /\
+  ml_delext w 1 None None 0 = Err EValue.
+Proof.
+  cbv zeta. split.
+  - eexists. symmetry. apply surjective_pairing.
+  - vm_compute. repeat split.
+Qed.
+
 Print Assumptions C16_set_add.
 Print Assumptions C16_set_discard.
 Print Assumptions C16_set_remove.
@@ -951,3 +1055,10 @@ Print Assumptions C16_same_list_assignment_example.
 Print Assumptions C16_modlist_setslice_extended_example.
 Print Assumptions C16_modlist_insert_member_example.
 Print Assumptions C16_swap_idiom_observation.
+Print Assumptions C16_modlist_delslice_extended.
+Print Assumptions C16_modlist_delslice_extended_members.
+Print Assumptions C16_modlist_delslice_extended_list.
+Print Assumptions C16_modlist_delslice_extended_step_zero.
+Print Assumptions C16_modlist_delslice_extended_step_one.
+Print Assumptions C16_modlist_delslice_extended_reverse_all.
+Print Assumptions C16_modlist_delslice_extended_example.
